@@ -7,7 +7,7 @@ C17 — the fragment `W` on which token preservation and idempotence are PROVED
   very first word of the file), a closing brace is alone on its line ·
   one-line double-quoted strings `"…"` (escapes allowed: a backslash takes the next character with it; followed by white space) ·
   simple backquoted strings (one line, any characters — a backslash is literal there —, followed by white space) ·
-  comments `# …` (on their own line, after a word, or after `{` on the same line; any text without backslash, no trailing blanks) — not directly after `}` on the same line, not directly before a `{`.
+  comments `# …` (on their own line, after a word, or after `{` / `}` on the same line; any text without backslash, no trailing blanks) — not directly before a `{`.
 
 Everything else (multi-line quotes, multi-line backquotes, heredocs, escapes, `<`, `#` inside words, braces glued to
 words, one-line blocks, CR, BOM …) is excluded; most of it is excluded because the property is
@@ -130,7 +130,8 @@ def goodFrom : Option Kind → List Chunk → Bool
      | some .cmt => c.sep.head? == some rNL && c.kind != .opn
      | some .opn =>   -- a comment may follow the brace on the same line (it is moved to the next line)
         (decide (c.nl ≥ 1) || (c.kind == .cmt && !c.sep.isEmpty)) && c.kind != .opn
-     | some _ => decide (c.nl ≥ 1) && c.kind != .opn) &&
+     | some _ =>      -- after `}`: likewise a comment may follow on the same line
+        (decide (c.nl ≥ 1) || (c.kind == .cmt && !c.sep.isEmpty)) && c.kind != .opn) &&
     goodFrom (some c.kind) cs
 
 /-- cutting a string into chunks: `sep`, `word` = the chunk being built (reversed); `mode` 1 = the
@@ -188,6 +189,12 @@ def nextN (N : Nat) : Kind → Nat
 def braceLead (prev : Option Kind) (c : Chunk) : List Rune :=
   if (prev = some .plain ∨ prev = some .dq) ∧ c.word.head? = some rOpen then [rSP] else []
 
+/-- what `Format` writes between a word and the next one on the same line: one blank — except
+    after `}` (only a comment can follow there): the indentation goes between brace and comment,
+    at nesting 0 the comment is moved two lines down -/
+def sameLine (prev : Option Kind) (N : Nat) : List Rune :=
+  if prev = some .cls then (if N = 0 then [rNL, rNL] else tabsN N) else [rSP]
+
 /-- the separator `Format` writes before chunk `c`; `N` = nesting after the previous word.
     After a comment the first newline is the one that ends the comment. -/
 def canonSep (prev : Option Kind) (N : Nat) (c : Chunk) : List Rune :=
@@ -200,7 +207,7 @@ def canonSep (prev : Option Kind) (N : Nat) (c : Chunk) : List Rune :=
     match c.kind with
     | .opn => [rSP]
     | .cls => rNL :: tabsN (N - 1)
-    | _ => if c.nl = 0 then [rSP] else braceLead prev c ++ (nlsN (min c.nl 2) ++ tabsN N)
+    | _ => if c.nl = 0 then sameLine prev N else braceLead prev c ++ (nlsN (min c.nl 2) ++ tabsN N)
 
 def canon : Option Kind → Nat → List Chunk → List Chunk
   | _, _, [] => []
